@@ -76,7 +76,7 @@ func (p *Program) typeIDByName(s string) int64 {
 // ---- locations (assigns clauses) ----
 
 type loc struct {
-	rng    bool   // elements [lo,hi) (absolute indices) of region r
+	rng    bool // elements [lo,hi) (absolute indices) of region r
 	lo, hi *Term
 	all    bool
 	mem    bool       // whole region of a slice's backing store
@@ -837,6 +837,15 @@ func (x *Exec) invCtx(st *State, fr *Frame, phis []*ssa.Phi, vals []Value, snap 
 		}
 		names[ph.Name()] = vals[k]
 	}
+	for _, v := range fr.env {
+		if it, ok := v.(Iter); ok {
+			if p, ok := st.ghost[it.Name+".pos"]; ok {
+				names["rangepos"] = Sc{p}
+				names["rangelen"] = Sc{it.N}
+				names["rangeseq"] = Ar{A: it.Seq, N: 1 << 30}
+			}
+		}
+	}
 	c := x.ctxFor(st, fr, st.old, nil)
 	c.names = names
 	if snap != nil {
@@ -902,6 +911,20 @@ func (x *Exec) loopEnter(st *State, fr *Frame, from, to *ssa.BasicBlock, ord int
 	}
 	if x.loopAllocates(fr.fn, to.Index) && lc.HasAssigns {
 		x.havocAlloc(st)
+	}
+	// ghost positions of map iterators advanced inside the loop
+	for _, b := range fr.fn.Blocks {
+		if !fr.info.loopBlks[to.Index][b.Index] {
+			continue
+		}
+		for _, ins := range b.Instrs {
+			if nx, ok := ins.(*ssa.Next); ok {
+				if it, ok := fr.env[nx.Iter].(Iter); ok {
+					p := Sym(fresh("rangepos"), SInt)
+					st.ghost[it.Name+".pos"] = p
+				}
+			}
+		}
 	}
 	var nvals []Value
 	for _, ph := range phis {
